@@ -122,6 +122,7 @@ def main(tier, replay=None):
         "weakened / under the right side's assumptions / different interfaces; environment and implementation membership); truth is "
         "established by TLC from exact box-free Farkas certificates or a witness point; non-trivial = truth established and answer agrees",
         owner=lambda ev: PROP, replay=replay,
+        extra=lambda rep, rd: __import__("lpalgo").conformance(rep, rd, PROP, {"refines", "is_empty"}, 240 if tier == "quick" else 4800, seed()),
         nontrivial=lambda ev, kind, detail: kind == "ok",
         sig_of=lambda ev, detail: {"family": ev.get("_tag", "")},
     )
